@@ -267,6 +267,108 @@ def shape_info(repo, shapes):
     return info
 
 
+# ------------------------------------------------------------------------------------------------
+# constants of the ACN-Data client (C20): literals pulled out of the AST, fail closed on any other shape
+# ------------------------------------------------------------------------------------------------
+def _const_str(node, what):
+    if isinstance(node, ast.Constant) and isinstance(node.value, str):
+        return node.value
+    raise Untranslatable("%s: expected a string literal, found %s" % (what, ast.dump(node)[:60]))
+
+
+def _format_prefix(call, what):
+    """'<prefix>{0}'.format(x) -> prefix"""
+    if not (isinstance(call, ast.Call) and isinstance(call.func, ast.Attribute) and call.func.attr == "format"
+            and len(call.args) == 1 and not call.keywords):
+        raise Untranslatable("%s: expected '<text>{0}'.format(x)" % what)
+    fmt = _const_str(call.func.value, what)
+    if not fmt.endswith("{0}") or "{" in fmt[:-3] or "}" in fmt[:-3]:
+        raise Untranslatable("%s: format string %r is not '<text>{0}'" % (what, fmt))
+    return fmt[:-3], ast.unparse(call.args[0])
+
+
+def client_constants(repo):
+    src = py2coq.Source(repo, CLIENT)
+    fn = src.find("DataClient.get_sessions")
+    body = [st for st in fn.body if not (isinstance(st, ast.Expr) and isinstance(st.value, ast.Constant))]
+    where = CLIENT + ":get_sessions"
+    # if site not in {...}: raise ValueError(...)
+    st = body[0]
+    if not (isinstance(st, ast.If) and isinstance(st.test, ast.Compare) and len(st.test.ops) == 1
+            and isinstance(st.test.ops[0], ast.NotIn) and ast.unparse(st.test.left) == "site"
+            and isinstance(st.test.comparators[0], (ast.Set, ast.List, ast.Tuple))
+            and len(st.body) == 1 and isinstance(st.body[0], ast.Raise)):
+        raise Untranslatable(where + ": first statement is not `if site not in {...}: raise`")
+    sites = [_const_str(e, where + " site set") for e in st.test.comparators[0].elts]
+    exc = st.body[0].exc
+    exc_name = ast.unparse(exc.func) if isinstance(exc, ast.Call) else ast.unparse(exc)
+    consts = dict(limit=None, limit_ts=None, endpoint=None, ts_suffix=None, args=[], qmark=None, sep=None, maxres=None)
+    for st in body[1:]:
+        if isinstance(st, ast.Assign) and ast.unparse(st.targets[0]) == "limit":
+            consts["limit"] = st.value.value if isinstance(st.value, ast.Constant) and isinstance(st.value.value, int) else None
+        elif isinstance(st, ast.Assign) and ast.unparse(st.targets[0]) == "endpoint":
+            v = st.value
+            if isinstance(v, ast.BinOp) and isinstance(v.op, ast.Add) and ast.unparse(v.right) == "site":
+                consts["endpoint"] = _const_str(v.left, where + " endpoint")
+        elif isinstance(st, ast.If) and ast.unparse(st.test) == "timeseries":
+            for s2 in st.body:
+                if isinstance(s2, ast.AugAssign) and ast.unparse(s2.target) == "endpoint" and isinstance(s2.op, ast.Add):
+                    consts["ts_suffix"] = _const_str(s2.value, where + " ts suffix")
+                elif isinstance(s2, ast.Assign) and ast.unparse(s2.targets[0]) == "limit" and isinstance(s2.value, ast.Constant):
+                    consts["limit_ts"] = s2.value.value
+                else:
+                    raise Untranslatable(where + ": unexpected statement under `if timeseries`")
+            if st.orelse:
+                raise Untranslatable(where + ": `if timeseries` has an else branch")
+        elif isinstance(st, ast.If) and isinstance(st.test, ast.Compare) and isinstance(st.test.ops[0], ast.IsNot) \
+                and len(st.body) == 1 and not st.orelse and ast.unparse(st.body[0]).startswith("args.append("):
+            pre, arg = _format_prefix(st.body[0].value.args[0], where + " args.append")
+            if arg != ast.unparse(st.test.left):
+                raise Untranslatable(where + ": %s formatted under a test on %s" % (arg, ast.unparse(st.test.left)))
+            consts["args"].append((arg, pre))
+        elif isinstance(st, ast.Expr) and ast.unparse(st).startswith("args.append("):
+            pre, arg = _format_prefix(st.value.args[0], where + " args.append")
+            if arg != "limit":
+                raise Untranslatable(where + ": unconditional argument %s" % arg)
+            consts["maxres"] = pre
+        elif isinstance(st, ast.Assign) and ast.unparse(st.targets[0]) == "query_string":
+            txt = ast.unparse(st.value)
+            m = re.fullmatch(r"'(.*)' \+ '(.*)'\.join\(args\) if len\(args\) > 0 else ''", txt)
+            if not m:
+                raise Untranslatable(where + ": query_string = %s" % txt)
+            consts["qmark"], consts["sep"] = m.group(1), m.group(2)
+    if [a for a, _ in consts["args"]] != ["cond", "project", "sort"] or None in (
+            consts["limit"], consts["limit_ts"], consts["endpoint"], consts["ts_suffix"], consts["qmark"], consts["sep"],
+            consts["maxres"]):
+        raise Untranslatable(where + ": could not identify every query constant (%r)" % consts)
+    # format strings of utils.py
+    usrc = py2coq.Source(repo, UTILS)
+    fmts = {}
+    for q_, meth in (("http_date", "strftime"), ("parse_http_date", "strptime")):
+        f = usrc.find(q_)
+        found = [n for n in ast.walk(f) if isinstance(n, ast.Call) and isinstance(n.func, ast.Attribute) and n.func.attr == meth]
+        if len(found) != 1:
+            raise Untranslatable("%s:%s: expected exactly one %s call" % (UTILS, q_, meth))
+        fmts[q_] = _const_str(found[0].args[-1], "%s:%s format" % (UTILS, q_))
+    lines = ["From Coq Require Import ZArith List String.\nImport ListNotations.\nOpen Scope string_scope.\n",
+             "(* literals of DataClient.get_sessions and of utils.http_date / parse_http_date *)",
+             "Definition K_valid_sites : list string := [%s]." % "; ".join(coq_str(x, "site") for x in sites),
+             "Definition K_site_error : string := %s." % coq_str(exc_name, "exception"),
+             "Definition K_endpoint : string := %s." % coq_str(consts["endpoint"], "endpoint"),
+             "Definition K_ts_suffix : string := %s." % coq_str(consts["ts_suffix"], "suffix"),
+             "Definition K_limit : string := %s." % coq_str(str(consts["limit"]), "limit"),
+             "Definition K_limit_ts : string := %s." % coq_str(str(consts["limit_ts"]), "limit"),
+             "Definition K_arg_cond : string := %s." % coq_str(consts["args"][0][1], "arg"),
+             "Definition K_arg_project : string := %s." % coq_str(consts["args"][1][1], "arg"),
+             "Definition K_arg_sort : string := %s." % coq_str(consts["args"][2][1], "arg"),
+             "Definition K_arg_max_results : string := %s." % coq_str(consts["maxres"], "arg"),
+             "Definition K_query_mark : string := %s." % coq_str(consts["qmark"], "qmark"),
+             "Definition K_arg_sep : string := %s." % coq_str(consts["sep"], "sep"),
+             "Definition K_strftime_format : string := %s." % coq_str(fmts["http_date"], "format"),
+             "Definition K_strptime_format : string := %s." % coq_str(fmts["parse_http_date"], "format"), ""]
+    return "\n".join(lines)
+
+
 def broken(e):
     return "(* UNTRANSLATABLE: %s *)\nDefinition untranslatable : True := 0.\n" % str(e).replace("*)", "* )")
 
@@ -287,8 +389,9 @@ def generate(repo):
         res.append(("TariffK_%s.v" % dom, text, info))
     try:
         info = shape_info(repo, CLIENT_SHAPES)
-        text = "(* hand-modelled acndata functions (Model/Client.v); fingerprints are in anchors.json *)\n"
-    except (Untranslatable, OSError, SyntaxError) as e:
+        text = ("(* hand-modelled acndata functions (Model/Client.v); fingerprints are in anchors.json *)\n"
+                + client_constants(repo))
+    except (Untranslatable, OSError, SyntaxError, AttributeError, IndexError) as e:
         text, info = broken(e), [dict(name="ClientShape", error=str(e))]
     res.append(("ClientShape.v", text, info))
     return res
